@@ -21,6 +21,13 @@
                         (`_own`): the names are read off the three methods (exact shapes), the
                         numbers off pymbolic/mapper/stringifier.py (third party, pinned in /venv),
                         where parenthesize_if_needed must still be `if enclosing_prec > my_prec`
+ * c03_helper_key     : the components of the cache key under which emit_inst_AssignFunctionCall
+                        remembers the helper subroutine emitted for a called function, and under which
+                        finish_emit emits it: (inst.function_id, arg_kinds) with arg_kinds the FULL
+                        kind records (function.resolve_args(arg_kinds_dict)).  Fail-closed: a key
+                        built from anything coarser (class names, ...) is not a recognised shape --
+                        the built-ins that walk the Fortran type of a user-type argument write that
+                        type's extents into the helper
  * c03_ret_prefixes   : the three slots written by emit_inst_YieldState, in order
  fail-closed only: emit_inst_FailStep ends with goto 999; emit_return emits goto 999;
  lower_function emits label 999 right after lower_ast; process_ast's pass order.
@@ -161,6 +168,47 @@ def logical_precedences(repo):
     return out, names
 
 
+def helper_key(repo):
+    tree = _parse(repo, "dagrt/codegen/fortran.py")
+    cg = _find_class(tree, "CodeGenerator")
+    fn = _find_def(cg, "emit_inst_AssignFunctionCall")
+    body = [_src(x) for x in fn.body]
+    want = ["arg_kinds = function.resolve_args(arg_kinds_dict)",
+            "key = (inst.function_id, arg_kinds)",
+            "try:\n    fortran_func_name = self.function_and_arg_kinds_to_fortran_name[key]\n"
+            "except KeyError:\n"
+            "    fortran_func_name = self.name_manager.make_unique_fortran_name(inst.function_id)\n"
+            "    self.function_and_arg_kinds_to_fortran_name[key] = fortran_func_name"]
+    try:
+        i = body.index(want[0])
+    except ValueError:
+        raise ShapeError("fortran.py emit_inst_AssignFunctionCall: `arg_kinds = function.resolve_args(arg_kinds_dict)` "
+                         "not found")
+    if body[i:i + 3] != want:
+        raise ShapeError("fortran.py emit_inst_AssignFunctionCall: unrecognised helper cache key / lookup %r"
+                         % body[i:i + 3])
+    # nothing else writes or reads the cache in this method, and arg_kinds_dict holds what sym_kind_table returns
+    uses = [n for n in ast.walk(fn) if isinstance(n, ast.Attribute) and n.attr == "function_and_arg_kinds_to_fortran_name"]
+    if len(uses) != 2:
+        raise ShapeError("fortran.py emit_inst_AssignFunctionCall: %d uses of the helper cache, expected 2" % len(uses))
+    assigns = sorted(_src(n) for n in ast.walk(fn) if isinstance(n, ast.Assign)
+                     and _src(n.targets[0]).startswith("arg_kinds_dict["))
+    if assigns != ["arg_kinds_dict[arg_name] = self.sym_kind_table.get(self.current_function, arg.name)",
+                   "arg_kinds_dict[i] = None",
+                   "arg_kinds_dict[i] = self.sym_kind_table.get(self.current_function, arg.name)"]:
+        raise ShapeError("fortran.py emit_inst_AssignFunctionCall: unrecognised filling of arg_kinds_dict %r" % assigns)
+    fe = _find_def(cg, "finish_emit")
+    first = _src(fe.body[0])
+    if first != ("for (function_id, arg_kinds), fortran_name in self.function_and_arg_kinds_to_fortran_name.items():\n"
+                 "    self.emit_dagrt_function(fortran_name, function_id, arg_kinds)"):
+        raise ShapeError("fortran.py finish_emit: unrecognised emission of the helper subroutines %r" % first)
+    init = [_src(n) for n in ast.walk(_find_def(cg, "__init__")) if isinstance(n, ast.Assign)
+            and _src(n.targets[0]) == "self.function_and_arg_kinds_to_fortran_name"]
+    if init != ["self.function_and_arg_kinds_to_fortran_name = {}"]:
+        raise ShapeError("fortran.py CodeGenerator.__init__: helper cache is not a plain dict")
+    return ["inst.function_id", "arg_kinds"]
+
+
 def facts(repo):
     tree = _parse(repo, "dagrt/codegen/fortran.py")
     cg = _find_class(tree, "CodeGenerator")
@@ -269,7 +317,7 @@ def facts(repo):
         ne = True
     else:
         raise ShapeError("expressions.py FortranExpressionMapper.map_comparison: unrecognised body %r" % _body(mc[0]))
-    return dict(ne=ne, cond=cond, ordered=ordered, go=guard_outside(repo), prec=logical_precedences(repo), m1=m1, sw=sw, nf=nf, slots=slots, passes=passes)
+    return dict(ne=ne, cond=cond, ordered=ordered, go=guard_outside(repo), prec=logical_precedences(repo), hkey=helper_key(repo), m1=m1, sw=sw, nf=nf, slots=slots, passes=passes)
 
 
 def generate(repo):
@@ -291,6 +339,8 @@ def generate(repo):
                % (names["map_logical_or"], names["map_logical_and"], names["map_logical_not"]))
     for nm, z in zip(("or_child", "or_own", "and_child", "and_own", "not_child", "not_own"), nums):
         out.append("Definition c03_prec_%s : nat := %d." % (nm, z))
+    out.append("(* fortran.py emit_inst_AssignFunctionCall / finish_emit: key of the helper-subroutine cache *)")
+    out.append("Definition c03_helper_key : list string := %s." % coq_string_list(f["hkey"]))
     out.append("Definition c03_ret_prefixes : list string := %s." % coq_string_list(f["slots"]))
     out.append("Definition c03_passes : list string := %s." % coq_string_list(f["passes"]))
     return "\n".join(out) + "\n"
